@@ -421,6 +421,15 @@ def blocksStep (x : BSt) : M (Step BSt Blk) :=
 def readBlocks (s : Sock) (mx size : Int) (body : Bytes) : M Blk :=
   iterate blocksStep (s.inp.length + 1) ⟨s, mx, size, body⟩
 
+/-- the chunk-size check of `readBody` on the line as `readLine` returned it (CR still at its end): 1 to 8 hex
+    digits, optional blanks, then CR or `;`, and the value `strtoul` reads at most 0x7fffffff -/
+def chunkLineOk (line : Bytes) : Bool :=
+  let cs := cstr line
+  let nd := (cs.takeWhile fun c => (hexVal c).isSome).length
+  let rest := (cs.drop nd).dropWhile fun c => c == 32 || c == 9
+  decide (1 ≤ nd) && decide (nd ≤ 8) && (rest.headD 0 == 13 || rest.headD 0 == 59) &&
+    decide (strtoul16 cs % 2 ^ 32 ≤ 2147483647)
+
 structure BodySt where
   s : Sock
   size : Int
@@ -432,14 +441,18 @@ def bodyStep (chunked : Bool) (x : BodySt) : M (Step BodySt (Sock × Bytes)) :=
   if av < 0 then pure (.done (x.s, x.body))            -- (`waitInput(10)` is true: data or EOF is pending)
   else if chunked then do
     let r := x.s.readLine
-    let mx := hexToInt r.1
-    let b ← readBlocks r.2 mx x.size x.body
-    if b.ret then pure (.done (b.s, b.body))
-    else
-      let r2 := b.s.rawRead 2
-      if r2.1.length < 2 then pure (.done (r2.2, b.body))
-      else if mx == 0 then pure (.done (r2.2, b.body))
-      else pure (.next ⟨r2.2, b.size, b.body⟩)
+    -- a line that is not a chunk-size line: the connection is given up
+    if !chunkLineOk r.1 then pure (.done ({ r.2 with closed := true }, x.body))
+    else do
+      let mx := hexToInt r.1
+      let b ← readBlocks r.2 mx x.size x.body
+      if b.ret then pure (.done (b.s, b.body))
+      else
+        let r2 := b.s.rawRead 2
+        if r2.1.length < 2 then pure (.done (r2.2, b.body))
+        else if r2.1 != [13, 10] then pure (.done ({ r2.2 with closed := true }, b.body))   -- not the chunk's CRLF
+        else if mx == 0 then pure (.done (r2.2, b.body))
+        else pure (.next ⟨r2.2, b.size, b.body⟩)
   else do
     let mx : Int := if av ≤ 0 then 1 else av
     let mx := if x.size > 0 && mx > x.size then x.size else mx
